@@ -374,7 +374,79 @@ def run_nested(spec):
     return {"kind": "nested", "viol": out, "stats": stats}
 
 
+def run_sizing(spec):
+    """Object-level sizing on real GHEs with both time-step methods: the returned height must be a root of the excess computed with the
+    SAME method (own excess from a re-simulation on a deep copy), or sit on a bound with the justifying sign."""
+    import copy
+    import warnings
+
+    from ghedesigner.enums import TimestepType
+    from vf.gen import ghe as GG
+    from vf.gen import loads as GL
+    from vf.gen import phys as GP
+
+    g = rng(spec["seed"], PROP + "sizing", spec["shard"])
+    out = []
+    stats = {"sizing_runs": 0, "sizing_interior_hybrid": 0, "sizing_interior_hourly": 0, "sizing_on_bound": 0}
+    worst = 0.0
+    for i in range(spec["n"]):
+        arr = GP.PIPES[(spec["shard"] + i) % 4]
+        ph = GP.draw_phys(g, arr)
+        nx, ny = int(g.integers(1, 5)), int(g.integers(1, 5))
+        coords = GG.grid(nx, ny, float(round(g.uniform(4, 8), 1)))
+        hmin, hmax = 40.0, 240.0
+        desc = GL.draw_desc(g, families=["atlanta", "sinus", "spiky", "same_day_peaks", "atlanta_shift"], scale=1.0)
+        loads1 = GL.make_loads(desc)
+        # scale so that roughly 110 m per borehole are needed (crude; runs whose root is not interior are counted, not wasted)
+        peak = max(abs(min(loads1)), abs(max(loads1)))
+        desc["scale"] = float(len(coords) * 110.0 * 18.0 * g.uniform(0.6, 1.6) / max(peak, 1.0))
+        loads = GL.make_loads(desc)
+        tg = ph["soil"]["undisturbed_temp"]
+        flow = float(round(g.uniform(0.2, 0.7), 3))
+        case = {"phys": ph, "grid": [nx, ny], "loads": desc, "flow": flow}
+        for method, name in ((TimestepType.HYBRID, "hybrid"), (TimestepType.HOURLY, "hourly")):
+            with warnings.catch_warnings():
+                warnings.simplefilter("ignore")
+                ghe = GG.make_ghe(ph, coords, 100.0, flow, loads, 12, max_eft=tg + 14.0, min_eft=tg - 9.0, hmax=hmax, hmin=hmin, real_g=True)
+                ghe.compute_g_functions()
+                try:
+                    ghe.size(method=method)
+                except Exception as e:  # noqa: BLE001
+                    out.append({"mechanism": f"size-raised:{type(e).__name__}:{name}", "message": str(e)[:150], "case": case})
+                    continue
+                H = float(ghe.bhe.b.H)
+                g2 = copy.deepcopy(ghe)
+                mx, mn = g2.simulate(method=method)
+            e = max(mx - (tg + 14.0), (tg - 9.0) - mn)
+            stats["sizing_runs"] += 1
+            if hmin + 1e-9 < H < hmax - 1e-9:
+                stats["sizing_interior_" + name] += 1
+                worst = max(worst, abs(e))
+                if abs(e) > 1e-3:
+                    # same classifier as for design runs: a sign change within +-1 mm means the solver sits on a jump of the objective
+                    side = []
+                    for dh in (-1e-3, 1e-3):
+                        g3 = copy.deepcopy(ghe)
+                        g3.bhe.b.H = H + dh
+                        with warnings.catch_warnings():
+                            warnings.simplefilter("ignore")
+                            a, b = g3.simulate(method=method)
+                        side.append(max(a - (tg + 14.0), (tg - 9.0) - b))
+                    mech = "root-on-a-jump-of-the-sizing-objective" if (side[1] < 0 < side[0] and abs(e) <= 2e-2) else f"sized-height-not-a-root:{name}"
+                    out.append({"mechanism": mech, "message": f"size({name}) returned H={H:.4f} m in ({hmin},{hmax}) but the {name} excess there is {e:.4g} K (1 mm below {side[0]:.3g}, above {side[1]:.3g})", "case": case})
+            else:
+                stats["sizing_on_bound"] += 1
+                if abs(H - hmin) < 1e-9 and e > 1e-3:
+                    out.append({"mechanism": f"sized-at-min-height-but-infeasible:{name}", "message": f"excess {e:.4g} K", "case": case})
+                if abs(H - hmax) < 1e-9 and e < -1e-3:
+                    out.append({"mechanism": f"sized-at-max-height-but-over-satisfied:{name}", "message": f"excess {e:.4g} K", "case": case})
+    stats["sizing_worst_abs_excess_at_interior_root"] = worst
+    return {"kind": "sizing", "viol": out, "stats": stats}
+
+
 def run_shard(spec):
+    if spec.get("part") == "sizing":
+        return run_sizing(spec)
     if "cfgs" in spec:
         from vf.scenario import run_shard as rs
 
@@ -454,6 +526,7 @@ def check(tier, seed):
               "pattern_nmax": {"quick": 9, "thorough": 11}[tier]} for s in range(NSHARDS)]
     specs += [{"part": "nested", "seed": seed, "shard": s, "n": {"quick": 60, "thorough": 800}[tier]} for s in range(NSHARDS)]
     specs += [{"part": "scripted-physics", "seed": seed, "shard": s, "nshards": NSHARDS, "n1d": {"quick": 24, "thorough": 48}[tier], "nnested": {"quick": 150, "thorough": 1500}[tier]} for s in range(NSHARDS)]
+    specs += [{"part": "sizing", "seed": seed, "shard": s, "n": {"quick": 1, "thorough": 6}[tier]} for s in range(NSHARDS)]
     results = run_pool("vf.props.C05", specs, timeout=5400)
     recs, problems = PC.records(tier, seed)
     rep = Report(PROP)
@@ -464,7 +537,8 @@ def check(tier, seed):
         f"all 2^n sign patterns for n <= {specs[0]['pattern_nmax']} with distinct magnitudes; real Bisection2D.__init__ and BisectionZD flows on random "
         "monotone nested tables with scripted sizing; and the COMPLETE real classes (constructors included) with only GHE / g-function "
         "replaced by a scripted excess e(field,H), over 1-D lists x thresholds x caps x flags and random nested domains shaped like the "
-        "repository's (vf/props/scripted.py). (b) every real design run of the scenario pool: root condition, bound sign, drilling "
+        "repository's (vf/props/scripted.py); and GHE.size() with the HYBRID and the HOURLY method on real 12-month GHEs (root of the excess "
+        "computed with the same method). (b) every real design run of the scenario pool: root condition, bound sign, drilling "
         "clause, predecessor clause (where the observed excess is monotone), evaluation budget. non-trivial = scripted run that reached the "
         "bisection branch + real run with an interior root; distinct by construction."
     )
@@ -476,7 +550,7 @@ def check(tier, seed):
             rep.inconclusive.append("shard failed: " + r["_harness_error"][:300])
             continue
         for k, v in r["stats"].items():
-            if k == "max_evals":
+            if k in ("max_evals", "sizing_worst_abs_excess_at_interior_root"):
                 agg[k] = max(agg.get(k, 0), v)
             else:
                 agg[k] = agg.get(k, 0) + v
@@ -494,6 +568,9 @@ def check(tier, seed):
     rep.nontrivial_count = scripted_nt + len(rep.nontrivial_keys)
     if agg.get("runs", 0) == 0 or scripted_nt == 0:
         rep.inconclusive.append("scripted search enumeration did not run")
+    rep.evaluations += agg.get("sizing_runs", 0)
+    if agg.get("sizing_interior_hourly", 0) == 0 or agg.get("sizing_interior_hybrid", 0) == 0:
+        rep.inconclusive.append("object-level sizing never produced an interior root for both time-step methods")
     if rep.extra.get("interior_roots", 0) == 0:
         rep.inconclusive.append("no real run with an interior root observed")
     rep.assumptions = [
